@@ -3,7 +3,7 @@
 import re
 
 from ..core import RuleResult
-from ..ir import access_paths, walk, strip, value_walk, inline
+from ..ir import access_paths, walk, strip, value_walk, inline, resolve_closure_params
 from .. import anchors
 from ..flow import Origins
 
@@ -1729,5 +1729,110 @@ def rule_collector_sibling(ctx):
                         'the collectors treat the `%s` table differently in their %s callback (%s): the cached map and map() of the same '
                         'source then differ in sources / sourcesContent (padding with "" where no content was supplied, or content stored '
                         'in the wrong slot)' % (table, kind, '; '.join('%s: %s' % (k.rsplit('::', 1)[-1], sorted(v)) for k, v in sorted(per.items()))))
+    r.check_floor()
+    return r
+
+
+# ------------------------------------------------------------------------------------------------------------------------------
+# NAME-SIBLING: the pieces into which a composite cuts one child chunk keep the child's name alike
+
+_COND_CALLS = ('filter', 'then', 'then_some', 'take_if', 'xor', 'zip', 'take', 'filter_map')
+
+
+def _cond_profile(f, e, depth=0):
+    """the condition-introducing operations an Option-valued expression passes through: adaptor calls that can turn Some into None
+    under a predicate, and choices between alternatives (phi)"""
+    out = []
+    seen = set()
+
+    def go(x, d):
+        if not isinstance(x, tuple) or not x or d > 60 or id(x) in seen:
+            return
+        seen.add(id(x))
+        k = x[0]
+        if k == 'call':
+            nm = x[1].rsplit('::', 1)[-1]
+            if nm in _COND_CALLS:
+                out.append(nm)
+            if x[2]:
+                go(x[2][0], d + 1)          # the receiver chain only: what an adaptor's closure computes is not a condition on the value
+        elif k == 'phi':
+            alts = [a for a in x[1]]
+            if len(alts) > 1:
+                out.append('choice')
+            for a in alts:
+                go(a, d + 1)
+        elif k in ('ref', 'deref', 'cast', 'un', 'discr'):
+            go(x[1] if k != 'un' else x[2], d + 1)
+        elif k in ('field', 'downcast', 'index', 'cindex', 'proj'):
+            go(x[1], d + 1)
+        elif k == 'upvar':
+            go(x[1], d + 1)
+        elif k == 'agg':
+            for a in x[5]:
+                go(a, d + 1)
+        elif k == 'bin':
+            go(x[2], d + 1)
+            go(x[3], d + 1)
+    go(e, 0)
+    return tuple(sorted(out))
+
+
+def rule_name_sibling(ctx):
+    """the forwarded pieces of one child chunk translate the child's name index alike"""
+    f = ctx.facts()
+    r = RuleResult('NAME-SIBLING', 'a composite that cuts a child chunk into pieces and forwards each piece with the child\'s own original '
+                                   'position keeps or drops the child\'s name for all pieces alike: the name index of every such piece is '
+                                   'the translated child index, passed through the same conditions (an extra filter on one piece makes '
+                                   'an empty insertion inside a named chunk change its attribution)')
+    comps, ol = composites(f)
+    n = 0
+    for root, members, inner in comps:
+        groups = {}
+        for m in members:
+            for pt, s in m.points():
+                if not (s['k'] == 'assign' and s['r']['k'] == 'agg' and s['r'].get('path') == ol):
+                    continue
+                ops = dict(zip(s['r']['fields'], s['r']['ops']))
+                ne = inline(f, resolve_closure_params(f, m.expr_of_operand(ops['name_index'])), depth=3)
+                le = m.expr_of_operand(ops['original_line'])
+                # forwarded piece: the name derives *directly* from the `name_index` field of a child's OriginalLocation
+                direct = [x for x in walk(ne) if isinstance(x, tuple) and x and x[0] == 'field' and x[2] == 'name_index' and x[3] == ol]
+                viavar = any(isinstance(x, tuple) and x and x[0] == 'phi' for x in [ne])
+                if not direct or viavar:
+                    continue
+                # which child object: the root of the access path of that field read
+                srcs = set()
+                for x in direct:
+                    for rt, fs in access_paths(x[1], through_calls=THROUGH):
+                        srcs.add(rt[:3] if rt and rt[0] == 'arg' else (rt[0],))
+                lines = [x for x in walk(le) if isinstance(x, tuple) and x and x[0] == 'field' and x[2] == 'original_line' and x[3] == ol]
+                if not lines:
+                    continue            # the position is not the child's own: not a forwarded piece
+                prof = _cond_profile(f, ne)
+                if 'choice' in prof:
+                    continue            # the name is chosen among alternatives (a combinator deciding between two maps): not a plain piece
+                groups.setdefault(root.path, []).append((m, s, prof))
+        for key, lst in groups.items():
+            if len(lst) < 2:
+                for m, s, prof in lst:
+                    r.site('%s: single forwarded piece (name conditions %s)' % (m.path, list(prof)), s['s'], 'ok')
+                    n += 1
+                continue
+            profs = {}
+            for m, s, prof in lst:
+                profs.setdefault(prof, []).append((m, s))
+            major = max(profs.items(), key=lambda kv: (len(kv[1]), -len(kv[0])))[0]
+            for m, s, prof in lst:
+                ok = prof == major or len(profs) == 1
+                r.site('%s: forwarded piece translates the child\'s name under conditions %s' % (m.path, list(prof)), s['s'],
+                       'ok' if ok else 'violation')
+                n += 1
+                if not ok:
+                    r.violation('%s:piece-name' % root.path, s['s'], m.path,
+                                'one forwarded piece of a child chunk passes the child\'s name index through %s, its sibling piece(s) '
+                                'through %s: cutting a named chunk (even by an empty insertion) then changes which characters carry the '
+                                'name, although every piece still reports the child\'s own original position' % (list(prof), list(major)))
+    r.floor = 2
     r.check_floor()
     return r
